@@ -500,7 +500,7 @@ class _TotalJacInfo(object):
                                                           return_format)
         
         # Store which VOIs require unit scaling if we're computing an optimization jacobian.
-        if not has_custom_derivs:
+        if not has_custom_derivs or self.has_scaling:
             self._identify_unit_active_vars()
 
         # Apply explicit unit conversions requested by the functional API.
